@@ -8,8 +8,8 @@ import numpy as np
 from .. import core
 from ..core import SKIP
 
-OPS = {"trackviews", "binned", "maploc", "gjaccard", "locsort", "fromtrack", "seqviews", "files", "sgeometry", "ctor", "xgenome", "hugegenome"}
-MODEL_OPS = {"trackviews", "binned", "maploc", "gjaccard", "locsort", "fromtrack"}
+OPS = {"trackviews", "binned", "maploc", "gjaccard", "locsort", "fromtrack", "seqviews", "files", "sgeometry", "ctor", "xgenome", "hugegenome", "globalise", "maskfield"}
+MODEL_OPS = {"globalise", "trackviews", "binned", "maploc", "gjaccard", "locsort", "fromtrack"}
 
 
 def _c10():
@@ -53,7 +53,13 @@ def call(c):
         pts = c["pts"]
         k = c.get("split", len(pts))
         for part in (pts[:k], pts[k:]):
-            if part:
+            if part and c.get("field"):
+                # the documented keyword position_field: count another coordinate column of the entries
+                col = np.array([x[1] for x in part], dtype=m._coord_dtype(c))
+                other = np.zeros_like(col)           # the column that must NOT be counted: everything in the first bin
+                ent = Interval([names[x[0]] for x in part], col if c["field"] == "start" else other, col if c["field"] == "stop" else other)
+                bg.count(ent, position_field=c["field"])
+            elif part:
                 bg.count(LocationEntry([names[x[0]] for x in part], np.array([x[1] for x in part], dtype=m._coord_dtype(c))))
         d = bg.count_dict
         return {"dict": [m._ints(d[n]) for n in incl], "get": [m._ints(bg[n]) for n in incl]}
@@ -141,10 +147,12 @@ def call(c):
         # chromosomes (other order: permutation or sort_names); both objects alive in this process
         from bionumpy.streams import NpDataclassStream
         GA = bnp.Genome.from_dict(dict(zip(names, sizes)))
+        sizes_b = c.get("sizes2") or sizes           # the second genome may split the same names differently
+        names_b = c.get("names2") or names           # ... or name chromosomes of the same sizes differently
         if c["order2"] == "sort":
-            GB = bnp.Genome.from_dict(dict(zip(names, sizes)), sort_names=True)
+            GB = bnp.Genome.from_dict(dict(zip(names_b, sizes_b)), sort_names=True)
         else:
-            GB = bnp.Genome.from_dict({names[i]: sizes[i] for i in c["order2"]})
+            GB = bnp.Genome.from_dict({names_b[i]: sizes_b[i] for i in c["order2"]})
         stranded = bool(c.get("stranded", False))
         if c["what"] == "seq":
             # ONE sequence object, indexed first with intervals of one genome and then with intervals of the other
@@ -157,7 +165,11 @@ def call(c):
         bg = m._bedgraph_from_vals(c)
         stream = c.get("path") == "stream"
         track = GA.get_track(NpDataclassStream(iter([bg]), BedGraph)) if stream else GA.get_track(bg)
-        gi = GB.get_intervals(m._mk_intervals(c, stranded), stranded=stranded)
+        gi = GB.get_intervals(m._mk_intervals(dict(c, names=names_b), stranded), stranded=stranded)
+        if c["what"] == "add":
+            pa = GA.get_intervals(m._mk_intervals(dict(c, iv=c["iv2"]), False)).get_pileup()
+            dd = (pa + gi.get_pileup()).to_dict()
+            return {"add": [m._ints(dd[n]) for n in names]}
         if c["what"] == "bool":
             b = track[gi.get_mask()]
             return {"bool": m._ints(b.to_array() if hasattr(b, "to_array") else b)}
@@ -169,6 +181,35 @@ def call(c):
         if stream:
             r = bnp.compute(r)
         return {"rows": m._rows(r)}
+    if op == "maskfield":
+        # GenomeContext.mask_data with its documented keyword chromosome_field_name (a table whose contig column has another name)
+        from bionumpy.bnpdataclass import bnpdataclass
+        from bionumpy.genomic_data.genome_context import GenomeContext
+
+        @bnpdataclass
+        class Mate:
+            chromosome: str
+            contig: str
+            position: int
+        ctx = GenomeContext.from_dict(dict(zip(names, sizes)), m._filter_fn(c))
+        pts = c["pts"]
+        data = Mate([names[x[2]] for x in pts], [names[x[0]] for x in pts], np.array([x[1] for x in pts], dtype=int))
+        r = ctx.mask_data(data, chromosome_field_name="contig")
+        enc = {n: i for i, n in enumerate(incl)}
+        return {"rows": [[enc[n], int(p), k] for n, p, k in zip(m._names_of(r.contig), r.position, m._names_of(r.chromosome))],
+                "codes": m._ints(r.contig.raw())}
+    if op == "globalise":
+        # GlobalOffset's public conversion with its documented keyword do_clip (un-clipped bed files)
+        from bionumpy.genomic_data.genome_context import GenomeContext
+        ctx = GenomeContext.from_dict(dict(zip(names, sizes)), m._filter_fn(c))
+        go = ctx.global_offset
+        ivt = m._mk_intervals(c, False)
+        st, en = go.start_ends_from_intervals(ivt, do_clip=bool(c["clip"]))
+        g = go.from_local_interval(ivt, do_clip=bool(c["clip"]))
+        out = {"se": [[int(a), int(b)] for a, b in zip(st, en)], "gi": [[int(a), int(b)] for a, b in zip(g.start, g.stop)]}
+        back = go.to_local_interval(g)
+        out["back"] = m._obs_intervals(c, back.chromosome, back.start, back.stop)["iv"]
+        return out
     if op == "hugegenome":
         return _huge(c)
     if op == "files":
@@ -449,6 +490,18 @@ def oracle(c):
             b = c["bin"]
             out["binned"] = [[sum(1 for x in fpts if x[0] == i and x[1] // b == k) for k in range((sizes[i] + b - 1) // b)] for i in order_idx]
         return out
+    if op == "maskfield":
+        keep = [x for x in pts if rank[x[0]] is not None]
+        return {"rows": [[rank[x[0]], x[1], names[x[2]]] for x in keep], "codes": [rank[x[0]] for x in keep]}
+    if op == "globalise":
+        if any(rank[x[0]] is None for x in iv) or not iv or any(sizes[i] == 0 for i in incl):
+            return SKIP
+        clip = bool(c["clip"])
+        if any(x[1] < 0 or x[1] >= sizes[x[0]] or x[2] < x[1] or (not clip and x[2] > sizes[x[0]]) for x in iv):
+            return {"err": "raised"}
+        off = {i: sum(sizes[k] for k in incl if k < i) for i in incl}
+        se = [[off[x[0]] + x[1], off[x[0]] + min(x[2], sizes[x[0]])] for x in iv]
+        return {"se": se, "gi": se, "back": [[rank[x[0]], x[1], min(x[2], sizes[x[0]])] for x in iv]}
     if op == "hugegenome":
         small = [i for i in range(len(names)) if sizes[i] < 1000]
         if any(x[0] not in small or not (0 <= x[1] < x[2] <= sizes[x[0]]) for x in iv) or \
@@ -462,6 +515,8 @@ def oracle(c):
                 "msum": sum(1 for ch in pile for v in ch if v), "gsum": sum(map(sum, pile)),
                 "sort": sorted([x[0], x[1], x[2]] for x in iv), "at": [c["vals"][x[0]][x[1]] for x in pts],
                 "map": [[j, x[1] - y[1]] for j, y in enumerate(iv) for x in pts if x[0] == y[0] and y[1] <= x[1] < y[2]]}
+    if op == "xgenome" and (c.get("sizes2") or c.get("names2")):
+        valid = True
     if op == "xgenome":
         if not valid or not iv or any(x[1] == x[2] for x in iv) or any("_" in n for n in names):
             return SKIP
@@ -470,6 +525,29 @@ def oracle(c):
             return SKIP                                # streamed intervals come in their own genome's order
         stranded = bool(c.get("stranded", False))
         same = order2 == list(range(len(names)))
+        sizes_b = c.get("sizes2") or sizes
+        if c.get("names2"):
+            # same layout, other names: nothing of B belongs to a chromosome of A
+            if any(not (0 <= x[1] < x[2] <= sizes_b[x[0]]) for x in iv) or c["what"] == "seq":
+                return SKIP
+            return {"err": "raised"}
+        if sizes_b != sizes:
+            # same names, another split of the genome: arrays of the two layouts must never be combined position by
+            # position; intervals of B may be read on A only where they fit A's chromosomes
+            if any(not (0 <= x[1] < x[2] <= sizes_b[x[0]]) for x in iv) or c["what"] == "seq":
+                return SKIP
+            if c["what"] in ("bool", "and", "add") or c.get("path") == "stream":
+                return {"err": "raised"}
+            if any(x[2] > sizes[x[0]] for x in iv):
+                return {"err": "raised"}
+            return {"rows": [(c["vals"][x[0]][x[1]:x[2]][::-1] if (stranded and not x[3]) else c["vals"][x[0]][x[1]:x[2]]) for x in iv],
+                    "refusal_ok": True}
+        if c["what"] == "add":
+            iv2 = c["iv2"]
+            if any(not (0 <= x[1] < x[2] <= sizes[x[0]]) for x in iv2):
+                return SKIP
+            return {"add": [[sum(1 for x in iv + iv2 if x[0] == i and x[1] <= p < x[2]) for p in range(sizes[i])] for i in range(len(names))],
+                    "refusal_ok": not same}
         if c["what"] == "seq":
             rows = []
             for x in iv:
@@ -613,9 +691,53 @@ def _dtype_cases(rng, big):
                "iv": [[1, 12, 20, True], [1, 0, 3, True], [2, 0, 5, True], [2, 25, 30, True]], "pts": [[1, 0], [1, 19], [2, 0], [2, 29]]}
 
 
+def _keyword_cases(rng, big):
+    """documented keywords nothing inside the package passes: GlobalOffset.from_local_interval(do_clip=True) on intervals
+    overhanging a chromosome that is NOT the last one (and the default on valid / invalid intervals)"""
+    m = _c10()
+    for _ in range(60 if big else 12):
+        names, sizes = m._rand_genome(rng, min_chrom=2)
+        filt = rng.random() < 0.7
+        base = {"names": names, "sizes": sizes, "filt": filt, "op": "globalise"}
+        incl = [i for i, n in enumerate(names) if not (filt and "_" in n)]
+        if not incl:
+            continue
+        iv = m._rand_iv(rng, sizes, incl, rng.choice([1, 2, 4]))
+        over = [[x[0], x[1], sizes[x[0]] + rng.choice([1, 2, 5]), x[3]] for x in iv]       # overhanging stops
+        mixed = [rng.choice([a, b]) for a, b in zip(iv, over)]
+        for clip in (True, False):
+            yield dict(base, iv=iv, clip=clip)
+            yield dict(base, iv=over, clip=clip)
+            yield dict(base, iv=mixed, clip=clip)
+        yield dict(base, iv=[[incl[0], 0, 10 ** 6, True]] + iv, clip=True)
+
+
 def cases(tier, rng):
     m = _c10()
     big = tier in ("thorough", "widen")
+    yield from _keyword_cases(rng, big)
+    yield {"op": "globalise", "names": ["chr1", "chr2", "chr10"], "sizes": [5, 5, 4], "filt": True, "clip": True,
+           "iv": [[0, 3, 9, True], [2, 1, 4, True], [1, 4, 7, True]]}
+    # two genome objects with the SAME names in the same order but another split (same total and different total)
+    for names, sa, sb in ((["chr1", "chr2"], [3, 5], [5, 3]), (["chr1", "chr2", "chr3"], [4, 4, 4], [2, 6, 4]),
+                          (["chr1", "chr2"], [3, 5], [3, 6]), (["a", "b"], [6, 2], [2, 6])):
+        n = len(names)
+        vals = [[10 * (i + 1) + p for p in range(s_)] for i, s_ in enumerate(sa)]
+        for _ in range(4 if big else 2):
+            ivb = m._rand_iv(rng, sb, list(range(n)), rng.choice([1, 2, 3]), nonempty=True)
+            iva = m._rand_iv(rng, sa, list(range(n)), 2, nonempty=True)
+            b0 = {"op": "xgenome", "names": names, "sizes": sa, "sizes2": sb, "filt": True, "order2": list(range(n)), "vals": vals,
+                  "iv": ivb, "iv2": iva}
+            for what in ("bool", "and", "add"):
+                yield dict(b0, what=what, stranded=False, path="mem")
+            for path in ("mem", "stream"):
+                siv = sorted(ivb, key=lambda x: x[0])
+                yield dict(b0, iv=siv, what="extract", stranded=rng.random() < 0.5, path=path)
+            # the same layout under other names (one shared, one foreign; all foreign)
+            for names2 in ([names[0]] + [x + "b" for x in names[1:]], [x + "b" for x in names]):
+                b1 = dict(b0, sizes2=None, names2=names2, iv=iva)
+                yield dict(b1, what=rng.choice(["bool", "and", "add"]), stranded=False, path="mem")
+                yield dict(b1, iv=sorted(iva, key=lambda x: x[0]), what="extract", stranded=False, path=rng.choice(["mem", "stream"]))
     yield from _dtype_cases(rng, big)
     yield from _many_contig_cases(rng, big)
     # two genome objects over the same chromosomes in different orders, alive together: a track of one indexed with
@@ -664,6 +786,9 @@ def cases(tier, rng):
         spts = sorted(pts)
         yield dict(base, op="trackviews", iv=iv, pts=pts, vals=vals)
         yield dict(base, op="binned", pts=pts, bin=rng.choice([1, 2, 3, 4]), split=rng.randint(0, len(pts)))
+        yield dict(base, op="binned", pts=pts, bin=rng.choice([1, 2, 3]), split=rng.randint(0, len(pts)), field=rng.choice(["start", "stop"]))
+        allc = list(range(len(names)))
+        yield dict(base, op="maskfield", pts=[[rng.choice(allc), rng.randrange(6), rng.choice(allc)] for _ in range(rng.choice([1, 3, 5]))])
         c0 = rng.choice(incl)
         yield dict(base, op="binned", pts=pts + [[c0, sizes[c0] + rng.choice([0, 1, 3])]], bin=rng.choice([1, 2, 3]), split=len(pts) + 1)
         yield dict(base, op="maploc", iv=sorted(iv, key=lambda x: rng.random()), pts=spts)
